@@ -260,10 +260,24 @@ class Ctx:
 
 
 def load_known(pid):
+    """Known findings: known_findings.json (+ per-property files in known_findings.d/)."""
+    recs = []
     f = VERIF / 'known_findings.json'
-    if not f.exists():
-        return []
-    return [k for k in json.loads(f.read_text()) if k.get('property') == pid]
+    if f.exists():
+        recs += json.loads(f.read_text())
+    d = VERIF / 'known_findings.d'
+    if d.is_dir():
+        for g in sorted(d.glob('*.json')):
+            try:
+                recs += json.loads(g.read_text())
+            except Exception:
+                pass
+    out, seen = [], set()
+    for k in recs:
+        if k.get('property') == pid and (k.get('key'), k.get('status')) not in seen:
+            seen.add((k.get('key'), k.get('status')))
+            out.append(k)
+    return out
 
 
 def write_replay(ctx, payload):
